@@ -68,7 +68,23 @@ def run_case(case, ctx):
     mode = case['mode']
     guard = case.get('guard')
 
-    async def coro(value):
+    # how the event data reach the coroutine: positional 'value' only (default), 'value' and the
+    # tuple-valued 'tag' item positionally, both as keywords, or mixed
+    argstyle = case.get('argstyle')
+    f_conf = {None: {}, 'args2': {'f_args': ('value', 'tag')},
+              'kwargs': {'f_args': (), 'f_kwargs': ('value', 'tag')},
+              'mixed': {'f_args': ['tag'], 'f_kwargs': ['value']}}[argstyle]
+    stop_data = dict(STOP_DATA, tag=('t', 'STOP')) if argstyle else dict(STOP_DATA)
+    state['stop_data'] = stop_data
+
+    async def coro(*args, **kwargs):
+        if argstyle is None:
+            (value,) = args
+        else:
+            value, tag = {'args2': lambda a, b: (a, b), 'kwargs': lambda value, tag: (value, tag),
+                          'mixed': lambda tag, value: (value, tag)}[argstyle](*args, **kwargs)
+            if tag != ('t', value):
+                hist.log('coro_wrong_args', value, tag)
         uid = value
         hist.log('coro_start', uid)
         if uid == 'STOP':
@@ -95,14 +111,15 @@ def run_case(case, ctx):
         hist.log('coro_end', uid, 'ok')
         return ('ret', uid)
 
-    def coro_callable(value):
+    def coro_callable(*args, **kwargs):
+        value = kwargs['value'] if 'value' in kwargs else args[0] if argstyle != 'mixed' else None
         # a plain callable returning a coroutine (documented type of 'coro'): it may fail
         # already when it is called - a failed run like any other
         if value != 'STOP' and case.get('sync_raise') and puts[value][2]:
             hist.log('coro_start', value)
             hist.log('coro_end', value, 'err')
             raise RunError(value)
-        return coro(value)
+        return coro(*args, **kwargs)
 
     def build():
         class Res(edzed.SBlock):
@@ -125,7 +142,7 @@ def run_case(case, ctx):
         if guard is not None:
             kwargs['guard_time'] = case.get('guard_notation', guard)
         if case.get('stop_data'):
-            kwargs['stop_data'] = dict(STOP_DATA)
+            kwargs['stop_data'] = dict(stop_data)
         def result_filter(data):
             # fault injection: the delivery of ONE run's result event fails inside the output
             # task (start mode only: there the failure stays within that task)
@@ -139,7 +156,8 @@ def run_case(case, ctx):
             mode=case.get('mode_name', mode),
             on_success=edzed.Event(ok, efilter=result_filter if 'result_fault' in case else None),
             on_error=edzed.Event(err), on_cancel=edzed.Event(cnc),
-            on_output=edzed.Event(outp), stop_timeout=case.get('stop_timeout', 100), **kwargs)
+            on_output=edzed.Event(outp), stop_timeout=case.get('stop_timeout', 100), **f_conf,
+            **kwargs)
         state['oa'] = oa
         for k, (work, tmo) in enumerate(case.get('neighbours', ())):
             # other blocks with asynchronous clean-up (longer time-outs, stopped concurrently):
@@ -294,6 +312,13 @@ def judge(case, hist, state, ctx):
         raise core.Violation('simulation-aborted', f"{where}: simulation ended with {state['error']!r}")
     t0 = state['t0']
     E = hist.entries
+    if case.get('argstyle'):
+        where += f" f_args/f_kwargs={case['argstyle']}"
+        ctx.count('runs_with_several_or_keyword_arguments')
+        bad = next((e for e in E if e[2] == 'coro_wrong_args'), None)
+        if bad is not None:
+            raise core.Violation('wrong-coroutine-arguments',
+                                 f"{where}: the coroutine got value={bad[3]!r} tag={bad[4]!r}")
     stop_seq, stop_vt = next(((e[0], e[1]) for e in E if e[2] == 'stop_called'))
     stop_ret = state['stop_returned_vt']
     accepted = state['accepted']
@@ -334,7 +359,7 @@ def judge(case, hist, state, ctx):
         last_result = uid
         if data.get('trigger') != kind or data.get('source') != 'oa':
             raise core.Violation('wrong-result-data', f"{where}: {kind} event data {data!r}")
-        exp_put = dict(STOP_DATA) if uid == 'STOP' else accepted.get(uid)
+        exp_put = dict(state['stop_data']) if uid == 'STOP' else accepted.get(uid)
         if put != exp_put:
             raise core.Violation('wrong-result-data',
                                  f"{where}: {kind} event carries put={put!r}, original {exp_put!r}")
@@ -782,6 +807,8 @@ def gen(ctx):
                             case['stop_dur'] = 1.0
                         if k % 6 == 3:
                             case['sync_raise'] = True
+                        if k % 5 == 4:
+                            case['argstyle'] = ('args2', 'kwargs', 'mixed')[k % 3]
                         yield case, True
     for mode in ('cancel', 'wait', 'start'):
         for sd in (True, False):
@@ -827,6 +854,8 @@ def gen(ctx):
                 case['result_fault'] = rng.choice(ok_uids)
         if rng.random() < 0.15:
             case['via_run'] = True
+        if rng.random() < 0.3:
+            case['argstyle'] = rng.choice(['args2', 'kwargs', 'mixed'])
         r = rng.random()
         if r < 0.2:
             case['latency'] = rng.choice([1e-4, 2e-3])
